@@ -129,6 +129,14 @@ class Effects:
             # attribute of a fresh container of param elements is not meaningful
             return (r[0], "self") if r[1] == "self" else None
         if isinstance(e, ast.Subscript):
+            # d["key"] where d is a local bound (only) to a dict literal: the entry is whatever the literal put there
+            if isinstance(e.value, ast.Name) and isinstance(e.slice, ast.Constant) and e.value.id not in roots:
+                lits = self._dict_literals(fi, e.value.id)
+                if lits is not None:
+                    vals = [v for k, v in lits if isinstance(k, ast.Constant) and k.value == e.slice.value]
+                    if len(vals) == 1:
+                        return self.root_of(vals[0], roots, fi)
+                    return None
             r = self.root_of(e.value, roots, fi)
             if r is None:
                 return None
@@ -170,6 +178,22 @@ class Effects:
                     r = next(iter(res))
                     return r
             return None
+        return None
+
+    def _dict_literals(self, fi, name):
+        """(key, value) pairs if every binding of local ``name`` in ``fi`` is one dict literal (and no entry is reassigned); else None."""
+        binds = []
+        for n in own_nodes(fi.node):
+            if isinstance(n, ast.Assign):
+                for t in n.targets:
+                    if isinstance(t, ast.Name) and t.id == name:
+                        binds.append(n.value)
+                    if isinstance(t, ast.Subscript) and isinstance(t.value, ast.Name) and t.value.id == name:
+                        return None
+            elif isinstance(n, (ast.AugAssign, ast.For)) and any(isinstance(x, ast.Name) and x.id == name and isinstance(x.ctx, ast.Store) for x in ast.walk(n.target)):
+                return None
+        if len(binds) == 1 and isinstance(binds[0], ast.Dict) and name not in fi.params:
+            return list(zip(binds[0].keys, binds[0].values))
         return None
 
     def elem_root(self, it, roots, fi, tuple_index=None):
